@@ -201,6 +201,44 @@ func init() {
 			valid(e+" WITH "+e, false, "an exception id is accepted as the licence of a WITH")
 			valid("MIT WITH "+e+"+", false, "an exception id is accepted with '+'")
 			valid("MIT "+e, false, "an exception id is accepted without WITH")
+			// after WITH behind every kind of licence spelling the scanner / parser distinguish, and in every position
+			for _, lic := range []string{"MIT+", "mit", "GPL-2.0-or-later", "GPL-2.0-or-later+", "GPL-2.0+", "GPL-2.0-only", "GPL-2.0-only+",
+				"LGPL-2.1++", "Apache-2.0-or-later", "Apache-2.0-or-later+", "eCos-2.0", "AGPL-1.0"} {
+				valid(lic+" WITH "+e, true, "an exception id is rejected after WITH behind the licence spelling "+lic)
+			}
+			el := caseMut(e, 0)
+			for _, ctx := range []string{"(MIT WITH %s)", "ISC OR MIT WITH %s", "MIT WITH %s AND ISC", "(ISC AND (MIT+ WITH %s)) OR Zlib", "MIT  WITH  %s"} {
+				valid(fmt.Sprintf(ctx, e), true, "an exception id is rejected after WITH in the context "+ctx)
+				valid(fmt.Sprintf(ctx, el), true, "a lower-cased exception id is rejected after WITH in the context "+ctx)
+			}
+			// … and nowhere else: not as an operand, not with a suffix, not behind a reference, not twice
+			for _, ctx := range []string{"MIT OR %s", "%s OR MIT", "%s AND MIT", "%s+", "%s-only", "%s-or-later", "WITH %s", "MIT WITH %s WITH %s",
+				"LicenseRef-a WITH %s", "DocumentRef-a:LicenseRef-b WITH %s", "MIT WITH (%s)", "MIT WITH %s %s", "( %s )"} {
+				text := strings.ReplaceAll(ctx, "%s", e)
+				valid(text, false, "an exception id is accepted in the context "+ctx)
+				valid(strings.ReplaceAll(ctx, "%s", el), false, "a lower-cased exception id is accepted in the context "+ctx)
+			}
+			// every entry point and argument position: an exception id is not a licence, so it is no allowed entry either
+			for _, entry := range []string{e, el} {
+				for _, l := range [][]string{{entry}, {"MIT", entry}, {entry, "MIT"}, {"MIT", "ISC", entry, "Zlib"}} {
+					res.Evaluations++
+					count("exception_as_allowed_entry")
+					if r := implSat("MIT", l); r.err == nil && r.panicv == nil {
+						fail(failure{Stream: "oracle", What: "an exception id is accepted as an entry of the allowed list (outside WITH)", Case: &kase{Expr: "MIT", ExprHex: hx("MIT"), Allowed: l}, Impl: r.String(), Expected: "error"})
+					}
+					correspondNorm("S "+hx("MIT")+" "+hxl(l), implSat("MIT", l).String(), "Satisfies with an exception id in the allowed list: model vs implementation", &kase{Expr: "MIT", ExprHex: hx("MIT"), Allowed: l}, okErr)
+				}
+				if x := implExt(entry); x.err == nil && x.panicv == nil {
+					fail(failure{Stream: "oracle", What: "ExtractLicenses accepts an exception id as an expression", Case: &kase{Expr: entry, ExprHex: hx(entry)}, Impl: x.String(), Expected: "error"})
+				}
+				if v := implVal([]string{"MIT", entry}); v.panicv == nil && (v.ok || len(v.invalid) != 1 || v.invalid[0] != entry) {
+					fail(failure{Stream: "oracle", What: "ValidateLicenses does not report an exception id as invalid", Case: &kase{Allowed: []string{"MIT", entry}}, Impl: v.String(), Expected: "false [the id]"})
+				}
+				// as an allowed entry the WITH form is fine
+				if r := implSat("MIT WITH "+e, []string{"MIT WITH " + entry}); r.err != nil || r.panicv != nil || !r.ok {
+					fail(failure{Stream: "oracle", What: "'X WITH e' is not satisfied by the allowed entry 'X WITH e'", Case: &kase{Expr: "MIT WITH " + e, ExprHex: hx("MIT WITH " + e), Allowed: []string{"MIT WITH " + entry}}, Impl: r.String(), Expected: "true"})
+				}
+			}
 		}
 		sample(map[string]interface{}{"license": tblActive[0], "exception": tblExceptions[0]})
 	}
